@@ -148,8 +148,10 @@ def h_getitem(ctx, shape, indices, D, P):
         if Y.shape != want.shape:
             continue
         ctx.eq(Y, want, 'x%s' % name)
-        shares_np = np.shares_memory(ref0[idx], ref0)
-        ctx.fact(bool(np.shares_memory(y.data, x.data)) == bool(shares_np), 'x%s shares memory with x like numpy (%s)' % (name, shares_np))
+        # NumPy returns a view for every basic index that selects an array (a scalar copy for a full integer
+        # index, where a polynomial-valued result can only be a view): a non-empty selection shares memory
+        shares_np = Y.size > 0
+        ctx.fact(bool(np.shares_memory(y.data, x.data)) == bool(shares_np), 'x%s shares memory with x (%s)' % (name, shares_np))
         # a write through the view is visible in the parent
         if Y.size:
             W = V(ctx, 'w', Y.shape)
@@ -169,6 +171,8 @@ def h_setitem(ctx, shape, indices, D, P, rhs):
         x = mk_utpm(ctx, algopy, X)
         full = (slice(None), slice(None)) + (idx if isinstance(idx, tuple) else (idx,))
         tshape = X[full].shape[2:]
+        if 0 in tshape:
+            continue            # empty selections: outside the bound (stated)
         exp = X.copy()
         try:
             if rhs == 'utpm':
@@ -283,8 +287,8 @@ def h_shapeop(ctx, op, shape, D, P, arg=None, cplx=False):
         for p in range(P):
             ref = f(X[d, p])
             ref = np.asarray(ref, dtype=object)
-            ctx.fact(Y[d, p].shape == ref.shape, '%s(%s) slice shape %s == %s' % (op, arg, Y[d, p].shape, ref.shape))
-            if Y[d, p].shape == ref.shape:
+            ctx.fact(np.shape(Y[d, p]) == ref.shape, '%s(%s) slice shape %s == %s' % (op, arg, np.shape(Y[d, p]), ref.shape))
+            if np.shape(Y[d, p]) == ref.shape:
                 ctx.eq(Y[d, p], ref, '%s(%s)[%d,%d]' % (op, arg, d, p))
     if view is not None:
         r0 = np.zeros(shape)
